@@ -52,6 +52,7 @@ struct Ctx {
     std::vector<std::string> samples;
     std::map<std::string,long> counters;
     bool stop = false;
+    bool quiet = false;     // suppress violation reports (re-execution needed only to keep an enumeration aligned in replays)
 } ctx;
 
 static inline unsigned long hmix(unsigned long h, unsigned long v) {
@@ -98,6 +99,7 @@ static void violation(const char* tag, const char* fmt, ...)
     vsnprintf(msg, sizeof(msg), fmt, ap);
     va_end(ap);
     sanitize(msg);
+    if (ctx.quiet) return;
     materialize();
     ++ctx.viol;
     if (ctx.viol <= ctx.maxviol) {
@@ -957,7 +959,7 @@ static std::string check_result(const dd_edge& res, const Kind& k, const Shape& 
 //  (1) all functions differing from a constant in at most `npts` points
 //  (2) all functions depending on a single variable (relations: on a single (x_k,x'_k) pair)
 //  (3) relations: g * [x_k = x'_k for k in I] for every non-empty I, g constant or single-variable
-static std::vector<unsigned long> structured_family(const Kind& k, const Shape& s, const std::vector<double>& V, int npts=2)
+static std::vector<unsigned long> structured_family(const Kind& k, const Shape& s, const std::vector<double>& V, int npts=2, bool rules23=true)
 {
     long P = s.points(k.rel); size_t n = V.size();
     std::set<unsigned long> out;
@@ -974,7 +976,7 @@ static std::vector<unsigned long> structured_family(const Kind& k, const Shape& 
     // (2) and (3)
     int x[16], xp[16];
     int zero_digit = 0; for (size_t j=0;j<n;j++) if (V[j]==k.dflt()) zero_digit=(int)j;
-    for (int var=1; var<=s.K(); var++) {
+    for (int var=1; rules23 && var<=s.K(); var++) {
         int b = s.b[var-1]; int cells = k.rel ? b*b : b;
         unsigned long ng = ipow(n, cells);
         if (ng > 4096) continue;
